@@ -115,7 +115,7 @@ theorem implicit_product_under_prefix (u : UnOp) (al : Bool) {p : PExp} {ps vs :
 /-- `a / 2x = a / (2*x)` -/
 example : parseToks [.word "a", .slash, .int "2", .word "x"] = .ok (.bin .div (.var "a") (.bin .mul (.int 2) (.var "x"))) := by
   have h2 : digitsToNat "2".toList ≤ i64Max := by decide
-  have := implicit_product_single_factor .div false (Atom.var "a" (by decide) (by decide))
+  have := implicit_product_single_factor .div false (Atom.var "a" (by decide))
     (Juxt.int h2 Juxt.nil) (VarTail.var "x" (by decide)) (by simp)
   simpa [binTokS, mulAll, digitsToNat] using this
 
@@ -125,31 +125,28 @@ example : parseToks [.word "a", .slash, .int "2", .lpar, .word "x", .plus, .int 
   have h2 : digitsToNat "2".toList ≤ i64Max := by decide
   have h1 : digitsToNat "1".toList ≤ i64Max := by decide
   have hx : Tk (.bin .add (.var "x") (.int (digitsToNat "1".toList))) ([.word "x"] ++ .plus :: [.int "1"]) _ :=
-    Tk.bin (Tk.atom (Atom.var "x" (by decide) (by decide))) (Tk.atom (Atom.int "1" h1)) (Or.inl rfl) (Or.inl rfl)
+    Tk.bin (Tk.atom (Atom.var "x" (by decide))) (Tk.atom (Atom.int "1" h1)) (Or.inl rfl) (Or.inl rfl)
       (by simp [binToks] : Tok.plus ∈ binToks .add)
-  have := implicit_product_single_factor .div false (Atom.var "a" (by decide) (by decide))
+  have := implicit_product_single_factor .div false (Atom.var "a" (by decide))
     (Juxt.int h2 (Juxt.paren hx Juxt.nil)) VarTail.none (by simp)
   simpa [binTokS, mulAll, digitsToNat] using this
 
-/-- Identifiers that merely start with a keyword stay identifiers — proved for every word that is not
-itself a keyword and does not start with `true`/`false` … -/
-theorem keyword_prefix_ident_partial (n : String) (hk : isKeyword n = false) (hb : boolPrefix n = none) :
-    parseToks [.word n] = .ok (.var n) :=
-  parse_tk (Tk.atom (Atom.var n hk hb))
+/-- **Identifiers that merely start with a keyword stay identifiers**: every word that is not itself a
+keyword — `android`, `mins`, `iffy`, and also `truex`, `falsey`, `True` — is read as a variable. -/
+theorem keyword_prefix_ident (n : String) (hk : isKeyword n = false) : parseToks [.word n] = .ok (.var n) :=
+  parse_tk (Tk.atom (Atom.var n hk))
 
-example : isKeyword "android" = false ∧ boolPrefix "android" = none := by decide
-example : ∀ n ∈ ["android", "order", "nothing", "iffy", "xor1", "implies2", "mins", "format", "inx", "ast", "lets", "And", "$and", "_or"],
-    isKeyword n = false ∧ boolPrefix n = none := by decide
+example : ∀ n ∈ ["android", "order", "nothing", "iffy", "xor1", "implies2", "mins", "format", "inx", "ast", "lets", "And",
+    "$and", "_or", "truex", "falsey", "true1", "truetrue", "True", "FALSE", "trueand"], isKeyword n = false := by decide
 
-/-- … and FALSE for `true`/`false`: `truex` is not a keyword, yet it is not read as an identifier (the
-`boolean` rule has no boundary look-ahead and is tried before `variable`). -/
-theorem keyword_prefix_ident_counterexample :
-    isKeyword "truex" = false ∧ parseToks [.word "truex"] = .error .reject := by
-  refine ⟨by decide, ?_⟩
-  have hb : boolPrefix "truex" = some ("true", "x") := by decide
-  simp [parseToks, parseFuel, parseExp, collect, optUnary, unRule_word (w := "truex") (by decide), leaf, wordLeaf, hb,
+/-- regression examples for the defect repaired in cf0e033 (`boolean` had no boundary look-ahead and was
+case-insensitive): `truex` is a variable, `trueand x` is NOT `true and x`, `2 truex` is `2 * truex` -/
+example : parseToks [.word "truex"] = .ok (.var "truex") := keyword_prefix_ident "truex" (by decide)
+example : parseToks [.word "True"] = .ok (.var "True") := keyword_prefix_ident "True" (by decide)
+example : parseToks [.word "trueand", .word "x"] = .error .reject := by
+  simp [parseToks, parseFuel, parseExp, collect, optUnary, unRule_word (w := "trueand") (by decide), leaf, wordLeaf,
     collectLoop, binRule, ruleOfTok, Tok.opSpelling, Gen.binaryOpAlts, spells, Gen.opSpellings, prattParse,
-    expr, nud, loop, lbp]
+    expr, nud, loop, lbp, Gen.booleanWords, isKeyword, Gen.keywords]
 
 /-! ### from tokens to text -/
 
@@ -172,10 +169,10 @@ example : TextOK (.bin .sub (.var "x") (.bin .sub (.un .neg (.var "y")) (.bin .m
 
 /-! ### the laws named in the property text, on the TEXTS themselves (`parseText` = lexer + `parseToks`) -/
 
-private theorem vA : Atom (.var "a") (.word "a") := Atom.var "a" (by decide) (by decide)
-private theorem vB : Atom (.var "b") (.word "b") := Atom.var "b" (by decide) (by decide)
-private theorem vC : Atom (.var "c") (.word "c") := Atom.var "c" (by decide) (by decide)
-private theorem vX : Atom (.var "x") (.word "x") := Atom.var "x" (by decide) (by decide)
+private theorem vA : Atom (.var "a") (.word "a") := Atom.var "a" (by decide)
+private theorem vB : Atom (.var "b") (.word "b") := Atom.var "b" (by decide)
+private theorem vC : Atom (.var "c") (.word "c") := Atom.var "c" (by decide)
+private theorem vX : Atom (.var "x") (.word "x") := Atom.var "x" (by decide)
 private theorem i1 : Atom (.int 1) (.int "1") := Atom.int "1" (by decide)
 private theorem i2 : Atom (.int 2) (.int "2") := Atom.int "2" (by decide)
 
@@ -237,7 +234,7 @@ theorem text_keyword_prefixed :
     parseText "android + nothing".toList = .ok (.bin .add (.var "android") (.var "nothing")) :=
   text_of_toks (ts := [.word "android", .plus, .word "nothing"]) (by decide)
     (by simpa [binTokS, docLevel] using
-      parse_tk (Tk.bin (Tk.atom (Atom.var "android" (by decide) (by decide))) (Tk.atom (Atom.var "nothing" (by decide) (by decide)))
+      parse_tk (Tk.bin (Tk.atom (Atom.var "android" (by decide))) (Tk.atom (Atom.var "nothing" (by decide)))
         (Or.inl rfl) (Or.inl rfl) (by simp [binToks] : Tok.plus ∈ binToks .add)))
 
 end Rooc.Props.C09
